@@ -74,6 +74,24 @@ theorem C08_generated_characterised (a : Args) (es : List Entry) (tree : List (E
   rw [hops, written_append, supportOut_written a a.omitSer ls hs, typesOut_written a tree lt ht,
     typesOut_ok_paths a false tree lt ht]
 
+/-- What `--list-outputs` prints, spelled out: the generators' own path objects, untouched — first (unless `only`)
+the output path of every selected entry exactly as `build_namespace_tree` computed it, then the support targets.
+No item is re-normalised on the way to stdout: a `..` in `--outdir` stays in every printed path (`pathWithSuffix`
+drops empty and `.` segments only, like `pathlib`), because removing `x/..` lexically names another directory
+when `x` is a symbolic link. -/
+theorem C08_list_outputs_prints_generator_paths (a : Args) (es : List Entry) (tree : List (Entry × OutPath))
+    (hacc : accepted a = true) (htree : buildTree a (treeEntries a es) = .ok tree)
+    (hok : (run .listOutputs a es).err = none) :
+    ∃ sup, (supportOut a true a.omitSer).res = .ok sup ∧
+      (run .listOutputs a es).outputs =
+        (if a.genSupport != .only then (selected a tree).map (·.2) else []) ++ sup := by
+  unfold run runWith at *
+  simp only [hacc, Bool.not_true, Bool.false_eq_true, if_false, htree, listOutputsOnly] at hok ⊢
+  obtain ⟨⟨ls, hs⟩, ⟨lt, ht⟩⟩ := (listOutputsWith_err_none_iff a a.omitSer tree).1 hok
+  refine ⟨ls, hs, ?_⟩
+  simp only [listOutputsWith, ht, hs, listOf]
+  rw [typesOut_ok_paths a true tree lt ht]
+
 /-! ## T2 — listing and dry-run modes touch nothing -/
 
 /-- T2: the operation log of `--list-outputs`, `--list-inputs` and `--dry-run` is empty — for every argument
@@ -288,6 +306,16 @@ def wTreeDir : List TemplateFile :=
 example :
     (run .listInputs { wArgs with genSupport := .never, templates := some wTreeDir } wEntries).inputs =
       ["/t/Any.j2", "/t/header.j2", "/t/parts/header.j2", "/t/parts/deep/header.j2", "/ns/app/Use.1.0.dsdl"] := by decide
+
+/-- `..` after a (possibly symbolic) directory is kept in computed, printed and written paths alike; only empty and
+`.` segments disappear (seeded change C08-4 printed the lexically normalised `/t/gen/...`). -/
+example : pathWithSuffix ["", "t", "lnk", "..", "gen", ".", "", "Use_1_0"] ".h" = .ok ["t", "lnk", "..", "gen", "Use_1_0.h"] := rfl
+
+example :
+    (run .listOutputs { wArgs with outdir := ["", "t", "lnk", "..", "gen"], genSupport := .never } wEntries).outputs =
+      [["t", "lnk", "..", "gen", "app", "Use_1_0.h"]] ∧
+    generated { wArgs with outdir := ["", "t", "lnk", "..", "gen"], genSupport := .never } wEntries =
+      [["t", "lnk", "..", "gen", "app", "Use_1_0.h"]] := by decide
 
 end witnesses
 
